@@ -3,7 +3,9 @@
 The event graph is built exactly as pv_to_puml_string does (ingestion with the dummy start event, deep copy,
 create_graph_from_events) for every corpus / fragment-F case that contains a loop; the real detect_loops is called and
 the returned nesting (nodes, edges, loop bodies with their start / end / break ids, recursively) is logged.
-TLC (spec/LoopNest.tla) evaluates on each observed nesting: every graph of the nesting is acyclic with a single entry,
+B3: spec/LoopExtract.tla, the abstract extraction machine, is model-checked on every rooted digraph with 3 (thorough: 4)
+nodes and every order of extraction (termination; the four invariants on the final nesting).
+B2: TLC (spec/LoopNest.tla) evaluates on each observed nesting: every graph of the nesting is acyclic with a single entry,
 each input event type occurs exactly once across the nesting and nothing is invented, every edge of the input that lies
 on a cycle has both ends inside one loop body."""
 import jobdef
@@ -115,9 +117,24 @@ def run_cases(chk, named, ks, seed, npres, stats):
     return len(cases), len(obs)
 
 
+def b3(chk, tier, stats):
+    """design-level: the abstract extraction machine (spec/LoopExtract.tla) on every rooted digraph with N nodes, every
+    order of extraction: terminates, and the final nesting satisfies the invariants"""
+    n = 3 if tier == "quick" else 4
+    cfg = "SPECIFICATION Spec\nCONSTANT N = %d\nINVARIANT AllAcyclicSingleEntry\nINVARIANT Partition\nINVARIANT CyclesInside\n" \
+          "INVARIANT BoundedLoops\n" % n + ("PROPERTY Terminates\n" if n == 3 else "")
+    r = tlc.run_tlc("LoopExtract", cfg, None, modules=["LoopExtract"], workers=8, jvm="throughput", timeout=3000, heap="6g")
+    stats["states"] = stats.get("states", 0) + r.distinct
+    stats["generated"] = stats.get("generated", 0) + r.generated
+    for v in r.violated:
+        chk.violation("model:LoopExtract N=%d" % n, "model-invariant:" + v, {"tlc_tail": r.out[-5000:]})
+    return {"N": n, "distinct": r.distinct, "generated": r.generated, "violated": r.violated, "liveness_checked": n == 3}
+
+
 def run(chk, tier, seed):
     named = case_list(tier, seed)
     stats = {}
+    model = b3(chk, tier, stats)
     ncases, nobs = run_cases(chk, named, (1, 2), seed, 2 if tier == "quick" else 3, stats)
     nested = sum(1 for _, d in named if any(it[0] == "loop" and any(x[0] == "loop" for x in le._items(it[1])) for it in le._items(d)))
     cov = {"states": stats.get("states", 0), "transitions": stats.get("generated", 0),
@@ -125,7 +142,7 @@ def run(chk, tier, seed):
            "rule": "corpus + F (exhaustive up to the tier's bound) + seeded samples, restricted to definitions with a loop, plus 8 hand-written 'bunched' loop shapes beyond F; job "
                    "sets Jobs_1 and Jobs_2 generated by TLC, two (thorough: three) presentations each; non-trivial = "
                    "definition with a loop nested in a loop",
-           "definitions_with_loops": len(named), "exhaustive": False}
+           "definitions_with_loops": len(named), "abstract_machine": model, "exhaustive": False}
     return cov, ["node kinds are read from the object's class (LoopEvent) and the dummy event type names",
                  "the input graph is the one create_graph_from_events builds from the ingested events"]
 
